@@ -217,6 +217,8 @@ pub struct Outcome {
     pub ticks: u64,
     /// library-internal loop iterations (guarded work hooks)
     pub work: u64,
+    /// peak of live bytes allocated by the run's thread during the run (C01)
+    pub mem_peak: u64,
     pub events: u64,
     pub n_chars: u64,
     /// comparisons / sub-executions performed inside this run
